@@ -19,7 +19,7 @@ var (
 // templates, %P is replaced by the thread's own name prefix
 var templates = []string{
 	"(do (def %P-x 5) (def %P-y (+ %P-x 1)) (list %P-x %P-y))",
-	"(let [g (gensym)] (symbol? g))",
+	"(let [g (gensym) h (gensym)] (list (symbol? g) (= g h)))",
 	"(shared-memo 2)",
 	"(deref (future (+ 1 2)))",
 	"(try %O-x (catch e :unbound))",
